@@ -18,7 +18,8 @@ var unsupportedTypes = []reflect.Type{
 }
 
 // named leaves that are safe everywhere (no pointer-receiver methods, no recursion)
-var namedLeaves = []int{0, 0, 1, 2, 3, 4, 6, 8, 9, 10, 11, 13, 15, 16, 17, 18, 19, 27, 28, 30, 31, 32, 34, 35, 36, 38, 40, 41, 42, 43, 44, 45, 46, 47}
+var namedLeaves = []int{0, 0, 1, 2, 3, 4, 6, 8, 9, 10, 11, 13, 15, 16, 17, 18, 19, 27, 28, 30, 31, 32, 34, 35, 36, 38, 40, 41, 42, 43, 44, 45, 46, 47,
+	53, 54, 55, 55, 56, 57, 59, 60, 61, 61, 65, 69}
 
 // named types with pointer-receiver methods (the result depends on addressability)
 var namedPtrRecv = []int{5, 7, 12, 14}
